@@ -10,6 +10,7 @@ package core
 // ---- ghost state shared by the handler contracts ----------------------
 //
 //@ ghost fwd int
+//@ ghost succ int
 //@ ghost npanic int
 //@ ghost ret_response []byte
 //@ ghost ret_err error
@@ -20,22 +21,64 @@ package core
 //
 //@ type NextIOHandler(ctx, request) (response, err)
 //@   havoc
-//@   modifies ghost.fwd, ghost.npanic, ghost.ret_response, ghost.ret_err, ghost.clock
+//@   modifies ghost.fwd, ghost.succ, ghost.npanic, ghost.ret_response, ghost.ret_err, ghost.clock
 //@   ensures ghost.fwd == old(ghost.fwd) + 1 && ghost.npanic == old(ghost.npanic)
+//@   ensures ghost.succ == old(ghost.succ) + ite(err == nil, 1, 0)
 //@   ensures same(response, ghost.ret_response) && same(err, ghost.ret_err)
 //@   ensures ghost.clock >= old(ghost.clock)
-//@   ensures_panic ghost.fwd == old(ghost.fwd) + 1 && ghost.npanic == old(ghost.npanic) + 1
+//@   ensures_panic ghost.fwd == old(ghost.fwd) + 1 && ghost.npanic == old(ghost.npanic) + 1 && ghost.succ == old(ghost.succ)
 //@   ensures_panic ghost.clock >= old(ghost.clock)
 //
 //@ type NextInvokeHandler(ctx, name, args) (result, err)
 //@   havoc
-//@   modifies ghost.fwd, ghost.npanic, ghost.ret_result, ghost.ret_err, ghost.clock
+//@   modifies ghost.fwd, ghost.succ, ghost.npanic, ghost.ret_result, ghost.ret_err, ghost.clock
 //@   ensures ghost.fwd == old(ghost.fwd) + 1 && ghost.npanic == old(ghost.npanic)
+//@   ensures ghost.succ == old(ghost.succ) + ite(err == nil, 1, 0)
 //@   ensures same(result, ghost.ret_result) && same(err, ghost.ret_err)
 //@   ensures ghost.clock >= old(ghost.clock)
-//@   ensures_panic ghost.fwd == old(ghost.fwd) + 1 && ghost.npanic == old(ghost.npanic) + 1
+//@   ensures_panic ghost.fwd == old(ghost.fwd) + 1 && ghost.npanic == old(ghost.npanic) + 1 && ghost.succ == old(ghost.succ)
 //@   ensures_panic ghost.clock >= old(ghost.clock)
 
 //@ func NewPanicError
 //@   nopanic
 //@   ensures result != nil
+
+// ---- contexts and their item dictionaries (ghost view) ------------------
+//
+// ghost.ccof[c]      the *ClientContext bound to the context.Context value c
+// ghost.items_of[x]  identity of the Dict returned by Items() of the Context
+//                    value x (one dictionary per context, stable)
+// ghost.dict_has / ghost.dict_int   contents of a dictionary as far as the
+//                    plugins use it: key (string identity) -> presence and
+//                    integer payload (ints as themselves, bools as 0/1)
+//
+//@ ghost ccof @*ClientContext
+//@ ghost items_of @int
+//@ ghost dict_has @@bool
+//@ ghost dict_int @@int
+
+//@ func GetClientContext
+//@   ensures result == ghost.ccof[ival(ctx)]
+
+//@ iface Context.Items(self) (d)
+//@   nopanic
+//@   ensures d != nil && ival(d) == ghost.items_of[ival(self)]
+
+//@ iface Dict.GetInt(self, key, defaultValue) (v)
+//@   nopanic
+//@   ensures v == ite(ghost.dict_has[ival(self)][str(key)], ghost.dict_int[ival(self)][str(key)],
+//@                    ite(len(defaultValue) > 0, defaultValue[0], 0))
+
+//@ iface Dict.GetBool(self, key, defaultValue) (v)
+//@   nopanic
+//@   ensures v == ite(ghost.dict_has[ival(self)][str(key)], ghost.dict_int[ival(self)][str(key)] != 0,
+//@                    ite(len(defaultValue) > 0, defaultValue[0], false))
+
+//@ iface Dict.Set(self, key, value)
+//@   nopanic
+//@   modifies ghost.dict_has[ival(self)][str(key)], ghost.dict_int[ival(self)][str(key)]
+//@   ensures ghost.dict_has[ival(self)][str(key)] && ghost.dict_int[ival(self)][str(key)] == ival(value)
+
+//@ func (*ClientContext).Clone
+//@   havoc
+//@   ensures typeis(result, *ClientContext) && result != nil
